@@ -619,8 +619,17 @@ static void op_repair(World &W, const Json &op) {
     int dest = op["dest"].in();
     if (!D.sizes_sane) { W.probe("repair.skipped-header-lies-about-sizes"); thread_arena().release_all(); return; }
     int al = op["oal"].in(0);
-    u8 *outb = thread_arena().place(nullptr, o.flen, al == 16 ? Arena::RIGHT : (al & 15), true);
-    memset(outb, 0xEE, o.flen);
+    u8 *outb = nullptr;
+    if (op["inplace"].in(0)) {
+        // a caller that refreshes a fragment it holds: the destination is among the supplied fragments and the output
+        // buffer is that very buffer
+        for (size_t q = 0; q < D.devs.size() && !outb; q++) if (D.devs[q] == dest && D.bufs[q].size() == o.flen) {
+            outb = thread_arena().place(D.bufs[q].data(), o.flen, al == 16 ? Arena::RIGHT : (al & 15), true);
+            for (size_t z = 0; z < D.devs.size(); z++) if (D.ptrs[z] == D.ptrs[q] && z != q) D.ptrs[z] = (char *) outb;
+            D.ptrs[q] = (char *) outb; W.fault("REPAIR.in-place");
+        }
+    }
+    if (!outb) { outb = thread_arena().place(nullptr, o.flen, al == 16 ? Arena::RIGHT : (al & 15), true); memset(outb, 0xEE, o.flen); }
     size_t live0 = own::live();
     cur().api = "reconstruct_fragment";
     arm_bfail(W, op);
